@@ -61,10 +61,10 @@ def setup(kind):
     return _SETUP[kind]
 
 
-def do_restore(kind, objects, cache=None, repo_holder=None, store=None):
+def do_restore(kind, objects, cache=None, repo_holder=None, store=None, target=None, keep=False):
     s = _SETUP[kind]
     sc = H.worker_scratch()
-    target = sc.sub()
+    target = target if target is not None else sc.sub()
     store = store or W.Store(objects)
 
     async def go():
@@ -83,7 +83,8 @@ def do_restore(kind, objects, cache=None, repo_holder=None, store=None):
     except Exception as e:
         exc = e
     tree = {p[len(str(target)):]: v[0] for p, v in W.read_tree(target).items()}
-    shutil.rmtree(target, ignore_errors=True)
+    if not keep:
+        shutil.rmtree(target, ignore_errors=True)
     return tree, exc
 
 
@@ -170,6 +171,13 @@ def run_batch(args):
             if not base_ok:
                 vs.append(({'repo': kind, 'mode': mode, 'what': 'baseline-restore-failed'}, {'spec': spec, 'exc': repr(exc)}))
                 continue
+        elif mode == 'retry-same-target':
+            # a first restore of the damaged repository (it fails or not), then a second one into the SAME directory
+            sc = H.worker_scratch()
+            tgt = sc.sub()
+            objs = damage(s['o'], spec)
+            t1, e1 = do_restore(kind, objs, target=tgt, keep=True)
+            tree, exc = do_restore(kind, objs, target=tgt, keep=False)
         elif mode in ('invalid-cache-half', 'invalid-cache-empty'):
             # the cache was filled by an earlier good run, then every entry was left cut short / empty (an interrupted
             # write), then the repository is damaged: whatever is fetched again must be verified like a first download
@@ -298,7 +306,7 @@ def replay(case):
         names = set(s['o'])
         flat = [spec[1], spec[2]] if spec[0] == 'pair' else [spec]
         if all(all((not isinstance(x, str)) or ('/' not in x) or x in names for x in sp) for sp in flat):
-            for mode in ('fresh', 'same-object', 'retry-with-cache', 'invalid-cache-half', 'invalid-cache-empty'):
+            for mode in ('fresh', 'same-object', 'retry-with-cache', 'invalid-cache-half', 'invalid-cache-empty', 'retry-same-target'):
                 n, oc, vs = run_batch((kind, [spec], mode))
                 out += [v[0] for v in vs]
     return {'violations': out}
@@ -327,7 +335,8 @@ def main():
             work = [('fresh', singles), ('fresh', pairs), ('same-object', red if t == 'quick' else singles[::3] + red),
                     ('retry-with-cache', [d for d in (red if t == 'quick' else singles[::3] + red)]),
                     ('invalid-cache-half', [d for d in (red if t == 'quick' else singles[::3] + red) if 'snapshots/' in str(d)]),
-                    ('invalid-cache-empty', [d for d in red if 'snapshots/' in str(d)])]
+                    ('invalid-cache-empty', [d for d in red if 'snapshots/' in str(d)]),
+                    ('retry-same-target', [d for d in (red if t == 'quick' else singles[::5] + red)])]
             for mode, specs in work:
                 specs = common.shuffled(specs, kind + mode)
                 step = max(50, len(specs) // 64)
